@@ -354,7 +354,7 @@ def _check(pid, P, tier, seed, bdir, ev):
                 f.fn_key = None
                 f.kani = dict(counterexample=res['case'])
                 failures_all.append(f)
-            elif 'no-scenarios-for-this-property' in (res.get('stdout_tail') or '') and not P.get('rt_always'):
+            elif 'no-scenarios-for-this-property' in (res.get('stdout_tail') or ''):
                 cov['concrete_validation']['label'] = 'no concrete scenarios exist for this property (nothing explored)'
             elif res.get('error') or res.get('rc') != 0:
                 undecided.append('concrete validation: %s' % (res.get('error') or ('runner exit %s' % res.get('rc'))))
